@@ -168,6 +168,19 @@ def put_in_state(game, meta, sclass, rnd):
             req("software_manager", "application", "uninstall", a)
         req("network_interface", 1, "disable")
         return f"{h} apps uninstalled, nic disabled"
+    if sclass == "started-late":
+        # every host that the scenario configures OFF is started now and given time to boot
+        started = []
+        for hn in hosts:
+            nd = sim.network.get_node_by_hostname(hn)
+            if nd.operating_state.name == "OFF":
+                nd.config.start_up_duration = 1
+                sim.apply_request(["network", "node", hn, "startup"])
+                started.append(hn)
+        for t in range(1, 4):
+            sim.apply_timestep(t)
+            sim.pre_timestep(t + 1)
+        return "started late: " + ",".join(started)
     if sclass == "timed-pending":
         # every timed operation of the host is already running (folder scan / restore, node scan, fix, restart, install): the same
         # requests arriving again must still be answered with a documented status
@@ -498,7 +511,7 @@ def case_actions(spec, cov, out):
     from primaite.game.agent.actions import ActionManager
 
     rnd = random.Random(spec["seed"])
-    cfg, meta = gen.gen(spec["seed"], spec.get("family"), {"max_actions": 20})
+    cfg, meta = gen.gen(spec["seed"], spec.get("family"), {"max_actions": 20, **(spec.get("knobs") or {})})
     am = ActionManager()
     for sclass in spec["sclasses"]:
         game = corpus.build_game(cfg)
@@ -632,6 +645,10 @@ class Check:
             sd = seed * 1000 + 500 + s
             specs.append({"name": f"actions-{sd}", "kind": "actions", "seed": sd, "family": fams[s % 3], "sclasses": SCLASSES,
                           "budget": 120 if q else 600})
+        for s in range(3 if q else 9):  # a host that is configured OFF (started later or not at all): its components are addressable all the same
+            sd = seed * 1000 + 560 + s
+            specs.append({"name": f"actions-offhost-{sd}", "kind": "actions", "seed": sd, "family": fams[s % 3], "sclasses": ["pristine", "started-late", "node-booting"],
+                          "budget": 160 if q else 600, "knobs": {"off_host": True, "min_clients": 2}})
         for fam in ("lan", "routed"):
             for far in ("live", "node-off", "nic-off", "terminal-stopped", "path-down", "near-nic-off", "timed-out"):
                 for warm in (True, False):
